@@ -559,6 +559,8 @@ func (s *Style) RenderFile(lines []Line) Spelling {
 type CountFS struct {
 	FS     fs.FS
 	OnOpen func(name string) bool // false: refuse
+	Fail   map[string]int         // file name -> number of bytes after which reading fails with ErrIO
+	OnFail func()                 // called when such a file hands out ErrIO
 }
 
 // MaxOpens: after this many Opens the wrapper refuses (so that a parser without a depth limit
@@ -571,17 +573,60 @@ func (c CountFS) Open(name string) (fs.File, error) {
 			return nil, fmt.Errorf("include FS wrapper: more than %d Opens: %w", MaxOpens, fs.ErrPermission)
 		}
 	}
-	return c.FS.Open(name)
+	f, err := c.FS.Open(name)
+	if k, ok := c.Fail[name]; ok && err == nil {
+		return &failFile{f, k, c.OnFail}, nil
+	}
+	return f, err
+}
+
+// ErrIO is the injected read error (not a syntax error: the parser must surface it as it is).
+var ErrIO = errors.New("injected I/O error")
+
+// failFile is an fs.File whose content ends in ErrIO after k bytes instead of in io.EOF.
+type failFile struct {
+	fs.File
+	left   int
+	onFail func()
+}
+
+func (f *failFile) Read(p []byte) (int, error) {
+	if f.left <= 0 {
+		if f.onFail != nil {
+			f.onFail()
+		}
+		return 0, ErrIO
+	}
+	if len(p) > f.left {
+		p = p[:f.left]
+	}
+	n, err := f.File.Read(p)
+	f.left -= n
+	if err == io.EOF {
+		err = ErrIO // the file is shorter than k: the error comes where the end would have been
+		if f.onFail != nil {
+			f.onFail()
+		}
+	}
+	return n, err
 }
 
 // PosReader is an io.ByteReader (so the lexer takes bytes one at a time, without its own
 // buffer) that knows how far the parser has read.
 type PosReader struct {
-	Data []byte
-	Pos  int
+	Data   []byte
+	Pos    int
+	Fail   int // > 0: reading fails with ErrIO once Fail-1 bytes have been read
+	OnFail func()
 }
 
 func (p *PosReader) ReadByte() (byte, error) {
+	if p.Fail > 0 && p.Pos >= p.Fail-1 {
+		if p.OnFail != nil {
+			p.OnFail()
+		}
+		return 0, ErrIO
+	}
 	if p.Pos >= len(p.Data) {
 		return 0, io.EOF
 	}
@@ -605,8 +650,10 @@ type RunCfg struct {
 	IncAllowed bool
 	FS         fstest.MapFS // nil = no include FS
 	File       string
-	MaxRecs    int  // stop collecting record contents beyond this many (they are still counted)
-	NoMem      bool // do not measure allocation (runtime.ReadMemStats stops the world)
+	MaxRecs    int            // stop collecting record contents beyond this many (they are still counted)
+	NoMem      bool           // do not measure allocation (runtime.ReadMemStats stops the world)
+	FailTop    int            // > 0: the zone's own reader fails with ErrIO after FailTop-1 bytes
+	FailFS     map[string]int // include file name -> bytes after which reading it fails with ErrIO
 }
 
 type Observed struct {
@@ -626,6 +673,9 @@ type Observed struct {
 	Events  []interface{} // next / open events in order
 	Dur     time.Duration
 	Alloc   uint64
+
+	ReadFails  int // times a reader handed the parser ErrIO
+	RecsAtFail int // records returned before the (last) failure
 }
 
 type EvNext struct {
@@ -704,7 +754,14 @@ func Run(text []byte, c RunCfg) (o Observed) {
 			o.Alloc = m1.TotalAlloc - m0.TotalAlloc
 		}
 	}()
-	rd := &PosReader{Data: text}
+	readFail := func() {
+		o.ReadFails++
+		o.RecsAtFail = o.NRecs
+		if o.ReadFails == 1 {
+			o.Events = append(o.Events, map[string]string{"ev": "readfail"})
+		}
+	}
+	rd := &PosReader{Data: text, Fail: c.FailTop, OnFail: readFail}
 	file := c.File
 	zp := dns.NewZoneParser(rd, c.Origin, file)
 	if c.DefTTL >= 0 {
@@ -712,7 +769,7 @@ func Run(text []byte, c RunCfg) (o Observed) {
 	}
 	zp.SetIncludeAllowed(c.IncAllowed)
 	if c.FS != nil {
-		zp.SetIncludeFS(CountFS{c.FS, func(n string) bool {
+		zp.SetIncludeFS(CountFS{FS: c.FS, Fail: c.FailFS, OnFail: readFail, OnOpen: func(n string) bool {
 			o.Opens = append(o.Opens, n)
 			if len(o.Opens) <= 80 {
 				o.Events = append(o.Events, EvOpen{"open", hx.FromString(n)})
